@@ -428,10 +428,22 @@ func exec(t *testing.T, pa any) (out core.Outcome) {
 			when = "pack-quiescent"
 			if packOverlapsCas {
 				when = "pack-overlaps-cas"
+				packsOverlap := false
+				for i := range packs {
+					for j := i + 1; j < len(packs); j++ {
+						if packs[i].call < packs[j].ret && packs[j].call < packs[i].ret {
+							packsOverlap = true
+						}
+					}
+				}
 				switch {
 				case lostWriteWindow:
 				case writeToUnlinked:
 					when = "pack-overlaps-cas:write-to-unlinked-file"
+				case packsOverlap:
+					// two PackRefs calls ran at the same time: the recorded hole in openAndLockPackedRefs (a flock
+					// taken on a packed-refs inode that the other call's rename has already replaced)
+					when = "pack-overlaps-pack"
 				default:
 					when = "pack-overlaps-cas:no-recorded-window"
 				}
